@@ -358,6 +358,82 @@ def h_foreign(ctx, values):
             ctx.require(equal_value(g, v), f'foreign: parsed {v.kind} equals the encoded one')
 
 
+def h_cont_cdata(ctx, kind, stack_vals, save, nargs=True, cp=True):
+    """continuations whose control data carries a stack and saved registers, encoded by the specification:
+    vm_ctl_data$_ nargs:(Maybe uint13) stack:(Maybe VmStack) save:VmSaveList cp:(Maybe int16);  _ cregs:(HashmapE 4 VmStackValue) = VmSaveList.
+    The parser returns the control data's stack as the list of its values and the saved registers by index (as stored value
+    slices), and goes on at the right place (code / next continuation)"""
+    from specs import dictspec as D
+    from harness.dict_common import keybits
+    svals = [make(ctx, d, f's{i}') for i, d in enumerate(stack_vals)] if stack_vals != 'none' else []
+    regs = {idx: make(ctx, d, f'c{idx}') for idx, d in save}
+    na = ctx.uint('na', 13) if nargs else None
+    cpv = ctx.sint('cp', 16) if cp else None
+    b = '0' if na is None else cat_bits('1', enc_uint(na, 13))
+    refs = []
+    if stack_vals != 'none':
+        st = enc_stack(svals)
+        b = cat_bits(b, '1', st.bits)
+        refs += list(st.refs)
+    else:
+        b = cat_bits(b, '0')
+    if regs:
+        root = D.encode(D.build([(keybits(i, 4), v) for i, v in sorted(regs.items())]), 4, lambda v: enc_value(v))
+        b = cat_bits(b, '1')
+        refs.append(root)
+    else:
+        b = cat_bits(b, '0')
+    b = cat_bits(b, '0' if cpv is None else cat_bits('1', enc_int(cpv, 16)))
+    if kind == 'vmc_std':
+        code = make(ctx, ('slice', 2, 0), 'code')
+        n, r = len(code.sc.bits), len(code.sc.refs)
+        cb, cr = cat_bits('00', b, enc_uint(0, 10), enc_uint(n, 10), enc_uint(0, 3), enc_uint(r, 3)), refs + [code.sc]
+    else:
+        nxt = make_cont(ctx, ('vmc_quit',), 'nx')
+        cb, cr = cat_bits('01', b), refs + [cont_cell(nxt)]
+    top = SC(ORD, cat_bits('00000110', cb), [SC(ORD, '', [])] + cr)          # vm_stk_cons: rest:^nil tos:VmStackValue (vm_stk_cont#06)
+    cell = to_real(warm(SC(ORD, cat_bits(enc_uint(1, 24), top.bits), top.refs)))
+    back = VmStack.deserialize(cell.begin_parse())
+    ctx.require(isinstance(back, list) and len(back) == 1 and isinstance(back[0], VmCont) and back[0].type_ == kind, 'control data: the continuation is parsed')
+    if not (isinstance(back, list) and len(back) == 1 and isinstance(back[0], VmCont)):
+        return
+    cd = getattr(back[0], 'cdata', None)
+    ctx.require(cd is not None, 'control data: present')
+    if cd is None:
+        return
+    g_na, g_cp = getattr(cd, 'nargs', None), getattr(cd, 'cp', None)
+    ctx.require((g_na is None) if na is None else (g_na is not None and g_na == na), 'control data: nargs')
+    ctx.require((g_cp is None) if cpv is None else (g_cp is not None and g_cp == cpv), 'control data: cp')
+    g_st = getattr(cd, 'stack', None)
+    if stack_vals == 'none':
+        ctx.require(not g_st, 'control data: no stack')
+    else:
+        ok = isinstance(g_st, list) and len(g_st) == len(svals)
+        ctx.require(ok, 'control data: stack depth')
+        if ok:
+            for g, v in zip(g_st, svals):
+                ctx.require(equal_value(g, v), f'control data: stack value ({v.kind})')
+    g_sv = getattr(cd, 'save', None)
+    if not regs:
+        ctx.require(not g_sv, 'control data: empty save list')
+    else:
+        ok = isinstance(g_sv, dict) and sorted(g_sv) == sorted(regs)
+        ctx.require(ok, 'control data: saved register indices')
+        if ok:
+            for i, v in regs.items():
+                got = g_sv[i]
+                eb, er = enc_value(v)
+                if isinstance(got, Slice):
+                    ctx.require(And(got.bits.to01() == eb, got.remaining_refs == len(er)), 'control data: saved register holds the stored value')
+                else:
+                    ctx.require(equal_value(got, v), 'control data: saved register holds the stored value')
+    if kind == 'vmc_std':
+        ctx.require(equal_value(getattr(back[0], 'code', None), code), 'control data: the code slice behind it')
+    else:
+        ctx.require(equal_cont(getattr(back[0], 'next', None), nxt) if isinstance(getattr(back[0], 'next', None), VmCont) and getattr(back[0].next, 'type_', None) == 'vmc_quit'
+                    and getattr(back[0].next, 'exit_code', None) is not None else False, 'control data: the next continuation behind it')
+
+
 # ------------------------------------------------------------------------------- instances
 Q = ('cont', ('vmc_quit',))
 QE = ('cont', ('vmc_quit_exc',))
@@ -380,6 +456,12 @@ def instances(tier, seed):
     for v in ATOMS + TUPLES + CONTS:
         yield 'h_stack', dict(values=[v])
         yield 'h_foreign', dict(values=[v])
+    for kind in ('vmc_std', 'vmc_envelope'):
+        for stack_vals in ('none', [], [('int', 30)], [('int', 70), ('null',)]):
+            for save in ([], [(0, ('int', 9))], [(7, ('null',)), (2, ('int', 66))]):
+                if kind == 'vmc_std' and stack_vals not in ('none', []) and save:
+                    continue          # would need more than four references
+                yield 'h_cont_cdata', dict(kind=kind, stack_vals=stack_vals, save=save, nargs=bool(len(save) % 2), cp=(stack_vals != 'none'))
     pool = [('null',), ('int', 12), ('cell',), ('slice', 3, 1), ('builder',), TUPLES[2], TUPLES[6], CONTS[2], CONTS[9]]
     pairs = list(itertools.product(pool, repeat=2))
     if tier == 'quick':
@@ -410,7 +492,8 @@ BOUNDS = {
     'continuations': 'every constructor of VmCont; vmc_std/vmc_envelope with nargs and cp present or absent (values symbolic), empty save list, no stack',
     'slices': '0, 3, 14 consumed bits and 0..2 consumed references',
 }
-OUTSIDE = ['continuations whose control data holds a stack or a non-empty save list (serialize takes a cell / dictionary cell there, parse returns a list / mapping: no common value form)',
+BOUNDS['control data'] = 'vmc_std / vmc_envelope whose control data holds a stack of depth 0..2 and 0..2 saved registers, encoded by the specification: parsed values, register indices and what follows'
+OUTSIDE = ['SERIALISING continuations whose control data holds a stack or a non-empty save list (serialize takes a cell / dictionary cell there, parse returns a list / mapping: no common value form; the parse direction is covered by h_cont_cdata)',
            'vm_stk_nan and byte-string values (not in the property)', 'stack depth above 40']
 STUBS = ['hashlib.sha256: injective uninterpreted function']
 ASSUMPTIONS = ['the VmStack schema as written in this file from block.tlb', '-2^63 may use either integer form']
